@@ -42,7 +42,8 @@ RULE = ("cases = api {attr.s, define, frozen} x auto_detect {unset,T,F} x writte
         "seeded sample of every block + cross-group combinations. Every case additionally carries a HISTORY: the same "
         "decorator object is first applied to k in {0,1,2} other classes with different own-method subsets; and body entries "
         "come in two kinds: a fresh user object, or an ALIAS of the object the bases provide under that name (a third of the "
-        "entries of every case + an exhaustive block over every group name x api x auto_detect x slots x bases). non-trivial = class was built and at least one watched "
+        "entries of every case + an exhaustive block over every group name x api x auto_detect x slots x bases); attrs bases "
+        "with/without generated __init__ and init hooks, subclasses adding a field or none (block sub_attrs_init). non-trivial = class was built and at least one watched "
         "name is the user's own object or attrs-made; distinct = distinct JSON case")
 ASSUMPTIONS = [
     "CPython's class creation rule '__eq__ in the namespace and no __hash__ => __hash__ = None' is a 1-line model function, diff-tested here",
@@ -56,6 +57,12 @@ ASSUMPTIONS = [
     "`__ne__`, and of the frozen `__setattr__`/`__delattr__` (below a frozen base an aliased `__setattr__` would also make "
     "`cls.__setattr__ is _frozen_setattrs` true -- a corner the model does not cover); a kept `__hash__` must also be in force "
     "(`type(inst).__hash__` is the user's object and `hash(inst)` goes through it)",
+    "attrs bases come with a generated __init__, with init=False, or with an own auto-detected __init__ (then they own an "
+    "__attrs_init__), with or without __attrs_pre_init__/__attrs_post_init__ of their own; the observed class adds a field or "
+    "none (cfg.no_own_field, only when the case says its field has no validator), defines init hooks or not, and is slotted/"
+    "frozen like the base or not: harness-only variation -- __attrs_init__ is decided per class (own __dict__) and compared "
+    "with the twin's generated __init__; a slotted attrs base is only built below a class that will be slotted (K3's shape "
+    "otherwise), which uses the documented slots default of the api to choose the shape",
     "decorator-object history: the earlier classes are plain classes with one field and user objects bound to the listed "
     "names; an earlier class the decorator rejects (error) stays in the history; the model is a function of the class alone",
     "one own field x (plus an inherited field y below an attrs base); the decision table does not depend on the fields except "
@@ -131,17 +138,42 @@ def _post_init(self):
     HOOKLOG.append("post")
 
 
+def _base_pre_init(self):
+    HOOKLOG.append("bpre")
+
+
+def _base_post_init(self):
+    HOOKLOG.append("bpost")
+
+
+def _slotted_guess(case):
+    """whether the observed class will be slotted (only used to choose shapes: a slotted attrs base is built only
+    below a slotted class)"""
+    return case["oSlots"] is True or (case["oSlots"] is None and case["api"] != "attrS")
+
+
 def _init_cfg(case):
     """harness-only variation of the field and the init hooks (the decision table does not depend on it):
     converter (only next to a validator, so that 'the field has something to convert/validate' stays what the
     case says), default / factory, kw_only, __attrs_pre_init__ / __attrs_post_init__"""
     cfg = case.get("cfg") or {}
+    has_base = case["attrsBase"] != "none"
+    # the subclass adds NO field of its own (only below an attrs base, and only when the case does not say the
+    # class's field has a validator)
+    no_own = bool(cfg.get("no_own_field")) and has_base and not case["fieldValidator"]
+    pre, post = bool(cfg.get("pre")), bool(cfg.get("post"))
+    bpre, bpost = has_base and bool(cfg.get("base_pre")), has_base and bool(cfg.get("base_post"))
     return {
-        "converter": bool(cfg.get("converter")) and bool(case["fieldValidator"]),
-        "dflt": cfg.get("dflt") or "none",
-        "kw_only": bool(cfg.get("kw_only")),
-        "pre": bool(cfg.get("pre")),
-        "post": bool(cfg.get("post")),
+        "no_own": no_own,
+        "converter": bool(cfg.get("converter")) and bool(case["fieldValidator"]) and not no_own,
+        "dflt": "none" if no_own else (cfg.get("dflt") or "none"),
+        "kw_only": bool(cfg.get("kw_only")) and not no_own,
+        "pre": pre, "post": post, "base_pre": bpre, "base_post": bpost,
+        # what a generated initialiser of the class must call (the class's own hook hides the base's)
+        "pre_tok": "pre" if pre else ("bpre" if bpre else None),
+        "post_tok": "post" if post else ("bpost" if bpost else None),
+        # how the attrs base came by its initialiser: generated __init__ / init=False / own __init__ (auto-detected)
+        "base_init": (cfg.get("base_init") or "gen") if has_base else "gen",
     }
 
 
@@ -269,14 +301,26 @@ def build(case):
     base = root
     ab = case["attrsBase"]
     if ab != "none":
-        # (a slotted attrs base only below a class that is explicitly slotted too: a frozen *dict* class below a
+        # (a slotted attrs base only below a class that will be slotted too: a frozen *dict* class below a
         # slotted base is K3's shape -- C01/C08 -- and would break the __init__ probe for an unrelated reason)
-        bkw = {"slots": bool(cfg.get("base_slots")) and case["oSlots"] is True}
+        bkw = {"slots": bool(cfg.get("base_slots")) and _slotted_guess(case)}
         if ab == "hooked":
             bkw["on_setattr"] = _hook
         elif ab == "frozen":
             bkw["frozen"] = True
         ns = {"y": attr.ib(), "__module__": SYNTH_MOD}
+        bic = _init_cfg(case)
+        # the base may itself be a class without generated __init__ (it then owns an __attrs_init__), with or
+        # without init hooks of its own
+        if bic["base_init"] == "flag_f":
+            bkw["init"] = False
+        elif bic["base_init"] == "own":
+            bkw["auto_detect"] = True
+            ns["__init__"] = _user_obj("__init__", "BASE")
+        if bic["base_pre"]:
+            ns["__attrs_pre_init__"] = _base_pre_init
+        if bic["base_post"]:
+            ns["__attrs_post_init__"] = _base_post_init
         base = attr.s(**bkw)(types.new_class("A", (root,), {}, lambda d: d.update(ns)))
         fields.append("y")
     if case["plainMid"]:
@@ -296,7 +340,8 @@ def build(case):
     if ic["kw_only"]:
         fkw["kw_only"] = True
     fld = attr.ib(**fkw)
-    fields.append("x")
+    if not ic["no_own"]:
+        fields.append("x")
     hooks_ns = {}
     if ic["pre"]:
         hooks_ns["__attrs_pre_init__"] = _pre_init
@@ -314,7 +359,7 @@ def build(case):
         # a real `class` statement whose methods reference `__class__`: the compiler gives each of them a closure
         # cell holding the class, which the slotted rebuild has to rewrite *in place* (same function objects)
         impl = {n: _user_obj(n, "USER") for n in case["body"]}
-        lines = ["class C(Base):"]
+        lines = ["class C(Base):", "    pass"]
         for n in case["body"]:
             if n in alias:
                 lines.append(f"    {n} = _alias[{n!r}]")
@@ -326,7 +371,8 @@ def build(case):
                 lines.append(f"    @{deco_}\n    def {n}({arg}):\n        __class__\n        return None")
             else:
                 lines.append(f"    def {n}(self, *a, **k):\n        __class__\n        return _impl[{n!r}](self, *a, **k)")
-        lines.append("    x: int = _field" if case["api"] != "attrS" else "    x = _field")
+        if not ic["no_own"]:
+            lines.append("    x: int = _field" if case["api"] != "attrS" else "    x = _field")
         for hn in hooks_ns:
             lines.append(f"    {hn} = _hooks[{hn!r}]")
         g = {"Base": base, "_impl": impl, "_alias": alias, "_field": fld, "_hooks": hooks_ns, "__name__": SYNTH_MOD}
@@ -337,10 +383,11 @@ def build(case):
         user = {n: (alias[n] if n in alias else _user_obj(n, "USER")) for n in case["body"]}
         ns = dict(user)
         ns["__module__"] = SYNTH_MOD
-        ns["x"] = fld
+        if not ic["no_own"]:
+            ns["x"] = fld
         ns.update(hooks_ns)
         if case["api"] != "attrS":
-            ns["__annotations__"] = {"x": int}
+            ns["__annotations__"] = {} if ic["no_own"] else {"x": int}
         cls = types.new_class("C", (base,), {}, lambda d: d.update(ns))
     deco = {"attrS": attr.s, "define": attrs.define, "frozen": attrs.frozen}[case["api"]]
     try:
@@ -437,11 +484,11 @@ def _probe(name, fn, C, fields, case, cache_hash):
         return ok
     if name == "__setattr__":
         del HOOKLOG[:]
-        fn(a, "x", 41)
+        fn(a, fields[-1], 41)
         ran = bool(HOOKLOG)
         converted = "c:x" in HOOKLOG
         del HOOKLOG[:]
-        return ran and a.x == (141 if converted else 41)
+        return ran and getattr(a, fields[-1]) == (141 if converted else 41)
     return True
 
 
@@ -503,16 +550,17 @@ def _probe_init(name, fn, C, fields, case, cache_hash):
     for args, kwargs, x_raw, from_default in _call_forms(fields, case):
         out, trace, st = _run_init(C, fn, args, kwargs, fields)
         want_x = x_raw + 100 if ic["converter"] else x_raw
-        want_trace = ((["pre"] if ic["pre"] else []) + (["f:x"] if from_default and ic["dflt"] == "factory" else [])
+        want_trace = (([ic["pre_tok"]] if ic["pre_tok"] else [])
+                      + (["f:x"] if from_default and ic["dflt"] == "factory" else [])
                       + (["c:x"] if ic["converter"] else []) + (["v:x"] if case["fieldValidator"] else [])
-                      + (["post"] if ic["post"] else []))
+                      + ([ic["post_tok"]] if ic["post_tok"] else []))
         vals = list(args[:len(fields) - 1]) + [want_x]
         ref_trace = trace
         if C.__dict__.get("__attrs_own_setattr__") is not True:
             # no hook __setattr__ of the class's own: plain assignments are what attrs generates, and a hook
             # __setattr__ *inherited* past a plain class (K6's shape, C06) then sees them -- not this property's
             # business; the comparison with the twin below still covers the full trace
-            ref_trace = [t for t in trace if t in ("pre", "post") or ":" in t]
+            ref_trace = [t for t in trace if t in ("pre", "post", "bpre", "bpost") or ":" in t]
         if out != "ok" or st["fields"] != vals or ref_trace != want_trace:
             return False
         if cache_hash and st["cache"] is not None:
@@ -661,6 +709,11 @@ def _mk_real(block, **kw):
                      ("kw_only", (h >> 9) % 4 == 1)):
         if key not in explicit:
             cfg[key] = val
+    for key, val in (("no_own_field", (h >> 15) % 4 == 1), ("base_init", ["gen", "gen", "flag_f", "own"][(h >> 17) % 4]),
+                     ("base_pre", (h >> 19) % 4 == 1), ("base_post", (h >> 21) % 4 == 1),
+                     ("base_slots", (h >> 23) % 2 == 1)):
+        if key not in explicit:
+            cfg[key] = val
     if "alias" not in explicit:
         cfg["alias"] = [n for i, n in enumerate(c["body"]) if (h >> (4 + i % 20)) % 3 == 0]
     if "history" not in kw:
@@ -770,6 +823,21 @@ def block_attrs_init():
                       oFrozen=fr, fieldValidator=fv, onSetattr=on, attrsBase=ab, cfg=dict(ic))
 
 
+def block_sub_attrs_init():
+    """subclasses of attrs bases that themselves have no generated __init__ (init=False / own __init__): the
+    subclass adds a field or none, init hooks only in the subclass / only in the base / in both / nowhere, same and
+    different slotted-ness and frozen-ness: __attrs_init__ is decided per class (own dict) and must behave like the
+    twin's generated __init__"""
+    routes = [("f", [], None), ("unset", ["__init__"], True), ("unset", [], None)]
+    hookcs = [(False, False), (True, False), (False, True), (True, True)]
+    for api, (fi, own, ad), ab, binit, noown, sl, bsl, fr, (pre, post), (bpre, bpost) in itertools.product(
+            APIS, routes, ["vanilla", "frozen", "hooked"], ["gen", "flag_f", "own"], [True, False], OB3,
+            [True, False], [None, True], hookcs, hookcs):
+        yield _mk("sub_attrs_init", api=api, fInit=fi, body=own, oAutoDetect=ad, attrsBase=ab, oSlots=sl, oFrozen=fr,
+                  cfg={"base_init": binit, "no_own_field": noown, "base_slots": bsl, "pre": pre, "post": post,
+                       "base_pre": bpre, "base_post": bpost, "converter": False, "dflt": "none", "kw_only": False})
+
+
 def block_alias():
     """a body entry that is the very object the bases provide under that name, for every group name (and next to
     an own or generated __eq__): own for detection, kept by identity and in force, in both builds"""
@@ -819,7 +887,7 @@ def block_other():
 
 
 BLOCKS = [block_repr, block_str, block_cmp, block_order_subsets, block_eq_inherit, block_hash, block_init,
-          block_attrs_init, block_alias, block_gss,
+          block_attrs_init, block_sub_attrs_init, block_alias, block_gss,
           block_match, block_setattr, block_exc, block_other]
 
 
@@ -848,7 +916,9 @@ def random_case(rng):
                  "pre": rng.random() < 0.25, "post": rng.random() < 0.25,
                  "dflt": rng.choice(["none", "none", "value", "factory"]), "kw_only": rng.random() < 0.2,
                  "hist_base": rng.choice(["same", "same", "root"]),
-                 "alias": [n for n in body if rng.random() < 0.3]},
+                 "alias": [n for n in body if rng.random() < 0.3],
+                 "no_own_field": rng.random() < 0.25, "base_init": rng.choice(["gen", "gen", "flag_f", "own"]),
+                 "base_pre": rng.random() < 0.25, "base_post": rng.random() < 0.25},
             history=[rng.choice([_opposite(body, False), _opposite(body, True),
                                  rng.sample(HIST_NAMES, rng.choice([0, 1, 3, 6]))])
                      for _ in range(rng.choice([0, 0, 1, 1, 2]))])
@@ -859,7 +929,7 @@ def gen_cases(tier, rng):
     if tier == "thorough":
         for blk in BLOCKS:
             yield from blk()
-        for _ in range(90000):
+        for _ in range(60000):
             yield random_case(rng)
         return
     # quick: a seeded sample of every block, then cross-group combinations
@@ -900,7 +970,9 @@ def shrink(case):
             if k == "plainMid" and case["baseDefines"]:
                 continue
             yield c
-    for k in ("base_slots", "cell", "converter", "pre", "post", "kw_only"):
+    if (case.get("cfg") or {}).get("base_init", "gen") != "gen":
+        yield dict(case, cfg=dict(case["cfg"], base_init="gen"))
+    for k in ("base_slots", "cell", "converter", "pre", "post", "kw_only", "no_own_field", "base_pre", "base_post"):
         if (case.get("cfg") or {}).get(k):
             yield dict(case, cfg=dict(case["cfg"], **{k: False}))
     al = (case.get("cfg") or {}).get("alias") or []
@@ -952,7 +1024,7 @@ LEVEL_TEXT = (
     "user's object -- functions, functions with a __class__ cell, classmethod/property/staticmethod objects, a tuple, aliases of "
     "inherited objects such as object.__hash__ / Base.__repr__ --, "
     "attrs-generated and passing a behaviour probe, None, object.__setattr__, frozen setattr/delattr, generated "
-    "__match_args__) and the kind of definition error; thorough tier: exhaustive per-group blocks (about 2.5e5 cases) + 9e4 "
+    "__match_args__) and the kind of definition error; thorough tier: exhaustive per-group blocks (about 2.5e5 cases) + 6e4 "
     "random cross-group cases; quick: 650 sampled cases per block + 5000 random. HISTORY: every class is decorated by a "
     "decorator OBJECT (attr.s(...), define(...), frozen(...) called once) that was first applied to 0, 1 or 2 other classes "
     "whose bodies bind other names (the complement of the observed class's group names, and a pseudo-random subset; below "
